@@ -88,7 +88,7 @@ PROPS = {
         'thorough_seeds': 2,
     },
     'C03': {
-        'lean_modules': ['C03'],
+        'lean_modules': ['C03', 'C03b'],
         'engines': [('retry', 300, 2500), ('burst', 10, 60)],
         'rule': 'scripts of environment events (app requests before Connect / while connected / during an outage, dial results, CONNACK accepted with or without session / refused / never, peer close, inbound messages, Handle) with a per-packet fault plan (write failure, lost request, lost acknowledgement, silent) and a friendly tail; hand-written witnesses of the repaired defects first; all single- and double-fault plans over short histories in the thorough tier; non-trivial = the script reached at least one connection',
         'assumptions': ['one task of the RetryClient is one atomic model step (single task goroutine, one request outstanding at a time)',
